@@ -59,6 +59,7 @@ pub struct Proc {
     pub restarts: u64,
     extra_args: Vec<String>,
     depth: usize,
+    wall_scale: u64,
 }
 
 const DONE: &str = "!pverif-done!";
@@ -125,6 +126,7 @@ impl Proc {
             restarts: 0,
             extra_args: extra.to_vec(),
             depth: 0,
+            wall_scale: 1,
         };
         p.preamble();
         p
@@ -159,7 +161,7 @@ impl Proc {
             self.restart();
             return None;
         }
-        let wall = Duration::from_millis(self.timeout_ms * 3 + 5000);
+        let wall = Duration::from_millis(self.timeout_ms * 3 * self.wall_scale + 5000);
         let mut lines = vec![];
         loop {
             let left = wall.checked_sub(t0.elapsed()).unwrap_or(Duration::ZERO);
@@ -222,10 +224,9 @@ impl Proc {
                 let _ = f.write_all(text.as_bytes());
             }
             // watchdog scaled to the group
-            let saved = self.timeout_ms;
-            self.timeout_ms = saved * group.len() as u64 / 3 + saved;
+            self.wall_scale = group.len() as u64 / 3 + 1;
             let r = self.exchange(&text);
-            self.timeout_ms = saved;
+            self.wall_scale = 1;
             match r {
                 None => {
                     for _ in group {
